@@ -320,6 +320,8 @@ def expected(csv, ops, tf=None):
 
 
 def _norm(x):
+    if isinstance(x, float) and x != x:
+        return "nan"                       # nan is not == nan: compared as a token
     if isinstance(x, float) and x == x and abs(x) < 2 ** 62 and x == int(x):
         return int(x)
     if isinstance(x, bool):
@@ -329,7 +331,7 @@ def _norm(x):
     if isinstance(x, dict) and "__us__" in x:
         return ("t", x["__us__"])
     if isinstance(x, dict):
-        return {k: _norm(v) for k, v in sorted(x.items()) if k not in ("stamped", "dt")}
+        return {k: _norm(v) for k, v in sorted(x.items()) if k not in ("stamped", "dt", "rel_now")}
     if isinstance(x, (list, tuple)):
         return [_norm(i) for i in x]
     return x
